@@ -24,6 +24,15 @@ CHECKS = {
  "C10": dict(engine="job", technique="TLC model checking of JobTask.tla (PriorityOrder) + TLC trace monitor (MonC10) over repeated runs",
    text="TLC checks that no control is taken from a lower-priority queue while a higher one is non-empty, for every queue content at the time the task looks; the monitor replays the queue discipline on recorded dequeue events (FIFO per priority, urgent > high > normal, each sent control executed exactly once); every script is repeated because tokio's select! is random per run.",
    ref="4.1, 6 C10"),
+ "C01": dict(engine="worker", technique="TLC model checking of ActionWorker.tla (Conservation, NoEmptyBatch) + TLC trace validation of real Watchexec runs against it (untimed data-flow conformance)",
+   text="ActionWorker.tla models the bounded priority event queue (a bag: no order among equal priorities), the filter, the debounce loop, the handler and the error channel step by step; TLC checks that every accepted event is in exactly one of queue / current set / exactly one delivered batch, that rejected and erroring events are in none, and that no batch is empty, for all streams up to the bound; recorded executions of a real Watchexec (synthetic events with scripted verdicts, priorities, empty events, several producers, queue capacities 1..4096, sync and async handlers of several durations) must be behaviours of the spec with the cut of a batch left open (WorkerTrace, Timed = FALSE).",
+   ref="4.3, 6 C01", note="Trusted: TLC; tokio's paused clock. Events are synthetic (send_event): what inotify/poll report for a filesystem operation, the signal and the keyboard sources are not exercised by this check."),
+ "C02": dict(engine="worker", technique="TLC model checking of ActionWorker.tla (NotBeforeWindow, InWindow, UrgentFlushes, NoStarvation) + timed TLC trace validation in virtual time",
+   text="TLC checks on ActionWorker that a batch without urgent events is never delivered before the smallest throttle read in its cycle has elapsed since its first event, that windows do not overlap, that an urgent event flushes at the instant it is received and is never filtered, and that an armed deadline is never later than window start + throttle (rejected events cannot postpone it); every recorded execution must follow the spec's window arithmetic exactly (WorkerTrace, Timed = TRUE: time may only advance when nothing is enabled and never past a deadline), for throttles 0/30/50 ms, arrivals on a grid around the window end, streams of rejected and accepted events, throttle changes from outside and from the handler.",
+   ref="4.3, 6 C02", note="Trusted: TLC; tokio's paused clock; with --cfg watchexec_verif the worker's window is measured with tokio::time::Instant instead of std::time::Instant (same arithmetic, controllable clock)."),
+ "C15": dict(engine="worker", technique="TLC model checking of ActionWorker.tla (ErrorAtMostOnce, ErrorReported, CriticalEndsMain) + TLC trace validation with error-handler calls judged",
+   text="TLC checks that each filter error reaches the error hook exactly once, only errors do, the worker goes on, and the main task ends exactly when the handler elevates or raises a critical error; real runs with filter errors among ordinary events, error bursts larger than the error queue (capacity 1, 2, 64) and error handlers that ignore / elevate / raise critical must be behaviours of the spec with every error-handler call judged (WorkerTrace, CheckErrors = TRUE), and a later ordinary event must still be delivered.",
+   ref="4.5, 6 C15", note="Trusted: TLC; tokio's paused clock. Covered here: errors raised while filtering. Watch/unwatch failures are covered by C13's machinery; watcher-callback errors (queue overflow) are not injected by this check."),
  "C03": dict(engine="pure", technique="TLA+ reference semantics (IgnoreScope.tla) with scoping laws checked by TLC; enumerated cases replayed on real trees through IgnoreFilter / IgnoreFilterer",
    text="IgnoreScope.tla defines git-style evaluation over a tree with prefix-related sibling directories (test/tests, origin/originx): nearest directory first, last matching line wins, path before parents, then globals; TLC checks Scoping, NegationLocal and OrderIrrelevant on it and enumerates ignore-file sets (all single files, all pairs of one-line files, seeded samples of 2-3 files) with the expected verdict of 20 probes each; the real filter is built five ways (new, new again, new with a permuted list, new+add_file, empty+add_file) and must give the expected verdict through check_event and check_dir every time.",
    ref="6 C03", note="Trusted: TLC; the glob semantics of the reference cover the 14 patterns of the table. Skipped as unspecified: a directory vs an ignore file inside it, re-inclusion below an excluded parent, anchored global patterns seen from outside the origin."),
@@ -62,6 +71,8 @@ def main():
                         source_commits=src, add_only=True),
              engines=[dict(name="job", path="tools/jobcheck.py", serves_properties=["C04", "C06", "C07", "C09", "C10"],
                            kind_free_text="JobTask.tla model checking + job_driver (virtual time, simulated child) + TLC trace validation / monitors"),
+                      dict(name="worker", path="tools/workcheck.py", serves_properties=["C01", "C02", "C15"],
+                           kind_free_text="ActionWorker.tla model checking + worker_driver (real Watchexec in virtual time) + TLC trace validation (WorkerTrace.tla, timed / untimed / errors judged)"),
                       dict(name="pure", path="tools/purecheck.py", serves_properties=[p for p in CHECKS if CHECKS[p]["engine"] == "pure"],
                            kind_free_text="decision specs in spec/pure: TLC checks the laws and enumerates (case, expected answer); pure_runner replays every case on the real crates")],
              checks=checks,
